@@ -881,6 +881,8 @@ def check_c19(tier, seed, log=print):
     if rc not in (0, 101) or any('panicked' in o for o in other):
         run.violation('rustc', dict(stderr=err[-1500:], other=other[:3], what='the rustc run failed in an unexpected way'), no_input=True)
     run.coverage['rejected_for_another_reason_than_expected'] = reason_mismatch[:10]
+    import assemble_tie
+    run.coverage['leaf_assembly_model'] = assemble_tie.tie_specs(run)
     run.coverage.update(dict(evaluations=n + len(ui_idx), distinct_nontrivial=len(nontriv), verdicts=verdicts, rustc_cases=len(ui_idx),
                              greedy_decisions_compared=tie,
                              rule='malformed stream: variant shapes (empty/multi/named fields), malformed and duplicated attribute arguments, #[logos(...)] shapes, generics, nullable patterns, look-behind at the token start, '
